@@ -1,4 +1,8 @@
 import SkopsModel.Generated.Facts
+import SkopsModel.Generated.Skeletons
+import SkopsModel.Lemmas.Fs
+import SkopsModel.Fs.Canon
+import SkopsModel.Lemmas.Value
 /-!
 # C12 — Archives are well-formed and independent of sink and compression
 -/
@@ -84,5 +88,86 @@ theorem flow_facts :
 
 example : ∃ a, run {} [.writeNew "1.npy", .writeNew "u.bin", .referAgain "1.npy"] = some a ∧ a.members.length = 2 :=
   ⟨_, rfl, rfl⟩
+
+
+/-! ## Sink independence
+
+`dump` and `dumps` as statement skeletons regenerated from the source (`Generated/Skeletons.lean`), interpreted over
+the file-system model.  `cfg.chunks` is what `_save` put into its buffer (a function of the object and the compression
+arguments only: flow facts `saveWritesOnlyBuffer`, `dumpSavesFirst`, `dumpsSavesFirst`). -/
+section Sinks
+open Skops.Fs Skops.Io.Value
+
+theorem skeleton_dump : Skops.Generated.dumpBody = dumpProg := rfl
+theorem skeleton_dumps : Skops.Generated.dumpsBody = dumpsProg := rfl
+
+def dump (v : PyVal) (cfg : Cfg) (w : World) : World × Sig :=
+  execL { cfg with dumpable := (encode v).isSome } Skops.Generated.dumpBody w
+
+def dumps (v : PyVal) (cfg : Cfg) (w : World) : World × Sig :=
+  execL { cfg with dumpable := (encode v).isSome } Skops.Generated.dumpsBody w
+
+/-- a path sink (str or `Path`, relative or absolute) ends up holding exactly the buffer, every other path reads as
+before and no directory appears -/
+theorem path_sink_gets_buffer (v : PyVal) (cfg : Cfg) (w : World) (s : Sch) (he : encode v = some s) (o : Path)
+    (ho : w.output = some o) (hp : cfg.sinkIsPath = true)
+    (hpar : w.fs.isDir (o.resolve cfg.cwd).dropLast = true) (hnd : w.fs.isDir (o.resolve cfg.cwd) = false) :
+    (dump v cfg w).2 = .next ∧
+    (dump v cfg w).1.fs.read (o.resolve cfg.cwd) = some cfg.chunks.flatten ∧
+    (∀ q, q ≠ o.resolve cfg.cwd → (dump v cfg w).1.fs.read q = w.fs.read q) ∧
+    (dump v cfg w).1.fs.dirs = w.fs.dirs ∧ (dump v cfg w).1.handle = w.handle := by
+  unfold dump
+  rw [skeleton_dump]
+  cases w with
+  | mk fs trace logs output dest tmpDir tmp buffer handle returned =>
+  simp only at ho hpar hnd
+  subst ho
+  simp only [dumpProg, execL, execS, Cond.eval, he, hp, Option.isSome_some, if_true]
+  rw [doOps_writeOps cfg.chunks _ _ hpar hnd]
+  exact ⟨rfl, by simp, fun q hq => read_put_other _ _ _ _ (Ne.symm hq), rfl, rfl⟩
+
+/-- an open binary file receives exactly the buffer after whatever it had received before; the file system is not
+touched at all -/
+theorem file_sink_gets_buffer (v : PyVal) (cfg : Cfg) (w : World) (s : Sch) (he : encode v = some s)
+    (hp : cfg.sinkIsPath = false) :
+    (dump v cfg w).2 = .next ∧ (dump v cfg w).1.handle = w.handle ++ cfg.chunks ∧
+    (dump v cfg w).1.fs = w.fs ∧ (dump v cfg w).1.trace = w.trace := by
+  unfold dump
+  rw [skeleton_dump]
+  simp [dumpProg, execL, execS, Cond.eval, he, hp]
+
+/-- `dumps` returns exactly the buffer and touches nothing -/
+theorem dumps_returns_buffer (v : PyVal) (cfg : Cfg) (w : World) (s : Sch) (he : encode v = some s) :
+    (dumps v cfg w).1.returned = some cfg.chunks ∧ (dumps v cfg w).1.fs = w.fs ∧ (dumps v cfg w).1.trace = w.trace ∧
+    (dumps v cfg w).1.handle = w.handle := by
+  unfold dumps
+  rw [skeleton_dumps]
+  simp [dumpsProg, execL, execS, he]
+
+/-- **sink independence**: the same object under the same compression arguments (the same `chunks`) puts the same
+byte string into a path, into a fresh file object and into the value returned by `dumps` — for every object of the
+grammar that can be dumped, every file-system state, every working directory and every form of the path -/
+theorem sink_independent (v : PyVal) (cfg : Cfg) (w : World) (s : Sch) (he : encode v = some s) (o : Path)
+    (ho : w.output = some o) (hh : w.handle = [])
+    (hpar : w.fs.isDir (o.resolve cfg.cwd).dropLast = true) (hnd : w.fs.isDir (o.resolve cfg.cwd) = false) :
+    (dump v { cfg with sinkIsPath := true } w).1.fs.read (o.resolve cfg.cwd)
+      = some (dump v { cfg with sinkIsPath := false } w).1.handle.flatten ∧
+    some (dump v { cfg with sinkIsPath := false } w).1.handle = (dumps v cfg w).1.returned := by
+  have h1 := path_sink_gets_buffer v { cfg with sinkIsPath := true } w s he o ho rfl hpar hnd
+  have h2 := file_sink_gets_buffer v { cfg with sinkIsPath := false } w s he rfl
+  have h3 := dumps_returns_buffer v cfg w s he
+  refine ⟨?_, ?_⟩
+  · rw [h1.2.1, h2.2.1, hh]; simp
+  · rw [h2.2.1, h3.1, hh]; simp
+
+/-- non-vacuity: one object, three sinks, one byte string -/
+example :
+    let v := PyVal.list "builtins.list" (.cons (.scalar (.int "1")) .nil)
+    let cfg : Cfg := { cwd := ["w"], input := ⟨false, []⟩, output := some ⟨false, ["sub", "m.skops"]⟩, chunks := [[5, 5], [7]] }
+    let w : World := { fs := { dirs := [[], ["w"], ["w", "sub"]], files := [] }, output := cfg.output }
+    (dump v cfg w).1.fs.read ["w", "sub", "m.skops"] = some [5, 5, 7] ∧
+    (dump v { cfg with sinkIsPath := false } w).1.handle.flatten = [5, 5, 7] ∧
+    (dumps v cfg w).1.returned = some [[5, 5], [7]] := by decide +kernel
+end Sinks
 
 end Skops.Properties.C12
